@@ -257,6 +257,8 @@ func SpecialSchemas() []SchemaCase {
 	add("cedar-prefix-undefined", &sast.Schema{Entities: sast.Entities{"X": {Shape: rec("a", T("__cedar::Nope"))}}})
 	add("cedar-namespace-common", &sast.Schema{Namespaces: sast.Namespaces{"__cedar": {CommonTypes: sast.CommonTypes{"Long": {Type: T("__cedar::Long")}}}}, Entities: sast.Entities{"X": {Shape: rec("a", T("__cedar::Long"))}}})
 	add("builtins-all", &sast.Schema{Entities: sast.Entities{"X": {Shape: rec("a", T("String"), "b", T("Long"), "c", T("Bool"), "d", T("Boolean"), "e", T("ipaddr"), "f", T("decimal"), "g", T("datetime"), "h", T("duration")), Tags: sast.SetType{Element: T("String")}}}})
+	add("entity-named-Set", &sast.Schema{Entities: sast.Entities{"Set": {}, "X": {Shape: rec("a", E("Set"), "b", T("Set"), "c", sast.SetType{Element: T("Set")}, "d", T("Set::T"))}},
+		Namespaces: sast.Namespaces{"Set": {Entities: sast.Entities{"T": {}}}}})
 	add("unknown-extension", &sast.Schema{Entities: sast.Entities{"X": {Shape: rec("a", sast.ExtensionType("nope"))}}})
 	// enums
 	add("enum-basic", &sast.Schema{Enums: sast.Enums{"Color": {Values: []types.String{"red", "green", "red"}}}, Entities: sast.Entities{"X": {ParentTypes: []sast.EntityTypeRef{"Color"}, Shape: rec("c", T("Color"))}},
@@ -304,6 +306,11 @@ type SchemaGen struct {
 	// Hostile: names that need quoting or are not identifiers at all (entity/common type/namespace names), entity types
 	// named like primitives, empty enums, applies-to without principals
 	Hostile bool
+	// WellFormed (with Hostile): keep what a parser can produce — no names that are not identifiers, no reserved common-type
+	// names, no empty enums — and every other hostile feature (types named like primitives, names that need quoting,
+	// applies-to without principals). Since both parsers validate names, the plain hostile profile mostly yields ASTs that
+	// are no schema in either format; this profile keeps the hostile-but-legal part of the space covered.
+	WellFormed bool
 	// feature flags recorded while generating (for classification)
 	Feat map[string]bool
 }
@@ -314,6 +321,7 @@ func (g *SchemaGen) chance(p float64) bool {
 }
 
 var goodIdents = []string{"A", "B", "C", "User", "Doc", "T0", "T1", "_x", "a1", "Group", "entity", "type", "action", "namespace", "enum", "tags", "appliesTo", "principal", "context", "Set1", "Entity1", "is_", "then1"}
+var reservedCommonNames = map[string]bool{"Bool": true, "Boolean": true, "Entity": true, "Extension": true, "Long": true, "Record": true, "Set": true, "String": true}
 var primLikeIdents = []string{"Long", "String", "Bool", "Boolean", "ipaddr", "decimal", "datetime", "duration"}
 var badIdents = []string{"", "a b", "in", "if", "true", "has", "é", "1a", "a-b", "\"q\"", "Set", "like", "__cedar", "Entity", "Record", "Extension"}
 var attrNamesC1617 = []string{"a", "b", "name", "in", "if", "a b", "", "é", "日本", "\"", "\\", "x\ny", "\x00", "__cedar", "is", "entity", "_", "A::B", "\u007f", "\u2028", "tab\t", "1a", "a?"}
@@ -434,7 +442,7 @@ func (g *SchemaGen) Schema() *sast.Schema {
 		return ns + "::" + n
 	}
 	ident := func() string {
-		if g.Hostile && g.chance(0.08) {
+		if g.Hostile && !g.WellFormed && g.chance(0.08) {
 			g.feat("bad-ident")
 			return badIdents[g.pick(len(badIdents))]
 		}
@@ -471,6 +479,9 @@ func (g *SchemaGen) Schema() *sast.Schema {
 		for i := 0; i < g.pick(3); i++ {
 			n := ident()
 			if g.chance(0.9) && used[n] { // an entity type and a common type of the same name are legal but rare
+				continue
+			}
+			if g.WellFormed && reservedCommonNames[n] {
 				continue
 			}
 			if !usedC[n] {
@@ -514,7 +525,7 @@ func (g *SchemaGen) Schema() *sast.Schema {
 		for _, n := range d.enums {
 			en := sast.Enum{Annotations: g.anns()}
 			nv := 1 + g.pick(3)
-			if g.Hostile && g.chance(0.15) {
+			if g.Hostile && !g.WellFormed && g.chance(0.15) {
 				nv = 0
 				g.feat("empty-enum")
 			}
